@@ -494,9 +494,11 @@ class Syn:
                 self._add_fn(it)
             elif k == "impl":
                 self.impls.append(it)
+                derived = any("automatically_derived" in a for a in it.get("attrs", []))
                 for sub in it["items"]:
                     if sub.get("k") == "fn":
                         sub["impl_trait"] = it.get("trait")
+                        sub["derived"] = derived
                         self._add_fn(sub)
                     elif sub.get("k") == "const":
                         self.consts[it["mod"] + "::" + sub["name"]] = sub
@@ -807,6 +809,16 @@ def format_args_of(e):
     return None
 
 
+def norm_template(t):
+    """`{0} + {1:?}` -> `{} + {:?}` (the expansion numbers the placeholders)"""
+    return re.sub(r"\{(\d+)(:[^}]*)?\}", lambda m: "{" + (m.group(2) or "") + "}", t)
+
+
+def template_holes(t):
+    """indices of the arguments in the order the placeholders appear"""
+    return [int(m.group(1)) for m in re.finditer(r"\{(\d+)(?::[^}]*)?\}", t)]
+
+
 def calls_in(node, names=None):
     """yield call / mcall nodes under node; names filters on last path segment or method name"""
     for n in walk(node):
@@ -991,3 +1003,140 @@ class Check:
 def load_table(name):
     with open(os.path.join(VERIF, "tables", name)) as fh:
         return json.load(fh)
+
+
+# --------------------------------------------------------------------------------------------
+# Lexical scoping: resolve every variable mention in a fn body to its binding (Rust shadowing is idiomatic here)
+# --------------------------------------------------------------------------------------------
+
+class Binding:
+    __slots__ = ("name", "kind", "node", "init", "idx")
+
+    def __init__(self, name, kind, node, init, idx):
+        self.name = name      # variable name
+        self.kind = kind      # param | let | arm | iflet | closure | for
+        self.node = node      # the pident node
+        self.init = init      # for let/iflet: the initialiser expression; for arm: the scrutinee; else None
+        self.idx = idx        # ordinal among bindings of the same name in this fn (stable key)
+
+    def __repr__(self):
+        return f"{self.name}#{self.idx}({self.kind})"
+
+
+class Scopes:
+    """resolve(path_node) -> Binding or None (None: not a local variable: a const, fn, unit struct..)"""
+
+    def __init__(self, fn):
+        self.fn = fn
+        self.use = {}        # id(path node) -> Binding
+        self.bindings = []   # all bindings in source order
+        self.by_pident = {}  # id(pident node) -> Binding
+        self._count = defaultdict(int)
+        env = {}
+        for inp in fn["sig"]["inputs"]:
+            env = self._bind_pat(inp["pat"], env, "param", None)
+        if fn.get("body"):
+            self._expr(fn["body"], env)
+
+    def _new(self, name, kind, node, init):
+        b = Binding(name, kind, node, init, self._count[name])
+        self._count[name] += 1
+        self.bindings.append(b)
+        self.by_pident[id(node)] = b
+        return b
+
+    def _bind_pat(self, p, env, kind, init):
+        env = dict(env)
+        for n in walk(p):
+            if n.get("k") == "pident":
+                # an uppercase single identifier pattern is a constant/unit variant, not a binding
+                if n["name"][:1].isupper() and not n.get("sub"):
+                    continue
+                env[n["name"]] = self._new(n["name"], kind, n, init)
+        return env
+
+    def _expr(self, e, env):
+        if e is None:
+            return
+        if isinstance(e, list):
+            for x in e:
+                self._expr(x, env)
+            return
+        if not isinstance(e, dict):
+            return
+        k = e.get("k")
+        if k == "path":
+            if "::" not in e["p"] and e["p"] in env:
+                self.use[id(e)] = env[e["p"]]
+            return
+        if k == "block":
+            cur = env
+            for s in e["stmts"]:
+                sk = s.get("k")
+                if sk == "local":
+                    self._expr(s.get("init"), cur)
+                    if s.get("else"):
+                        self._expr(s["else"], cur)
+                    cur = self._bind_pat(s["pat"], cur, "let", s.get("init"))
+                elif sk == "expr":
+                    self._expr(s["e"], cur)
+                elif sk == "fn":
+                    pass  # nested fn items: separate scope, analysed on their own if needed
+                else:
+                    self._expr(s, cur)
+            return
+        if k == "match":
+            self._expr(e["e"], env)
+            for a in e["arms"]:
+                aenv = self._bind_pat(a["pat"], env, "arm", e["e"])
+                if a.get("guard"):
+                    self._expr(a["guard"], aenv)
+                self._expr(a["body"], aenv)
+            return
+        if k == "if":
+            c = e["c"]
+            then_env = self._cond(c, env)
+            self._expr(e["then"], then_env)
+            self._expr(e.get("else"), env)
+            return
+        if k == "while":
+            then_env = self._cond(e["c"], env)
+            self._expr(e["body"], then_env)
+            return
+        if k == "closure":
+            cenv = env
+            for p in e["params"]:
+                cenv = self._bind_pat(p, cenv, "closure", None)
+            self._expr(e["body"], cenv)
+            return
+        if k == "for":
+            self._expr(e["iter"], env)
+            fenv = self._bind_pat(e["pat"], env, "for", e["iter"])
+            self._expr(e["body"], fenv)
+            return
+        if k == "let":
+            # bare let expression outside an if-condition (rare): treat bindings as local to nothing
+            self._expr(e["e"], env)
+            return
+        for key, v in e.items():
+            if key in ("pat", "params"):
+                continue
+            if isinstance(v, (dict, list)):
+                self._expr(v, env)
+
+    def _cond(self, c, env):
+        """environment for the then-branch of `if c` (handles `let` chains joined by &&)"""
+        if c.get("k") == "let":
+            self._expr(c["e"], env)
+            return self._bind_pat(c["pat"], env, "iflet", c["e"])
+        if c.get("k") == "binary" and c["op"] == "&&":
+            e1 = self._cond(c["l"], env)
+            return self._cond(c["r"], e1)
+        self._expr(c, env)
+        return env
+
+    def resolve(self, path_node):
+        return self.use.get(id(path_node))
+
+    def binding_of_pident(self, pident):
+        return self.by_pident.get(id(pident))
